@@ -67,6 +67,8 @@ type vfSinks struct {
 	udp   []*net.UDPConn
 	udpAt map[string]*net.UDPConn
 	lastRaw map[string][]byte
+	tcpAt    map[string]net.Listener
+	tcpConns map[string][]net.Conn
 	tcp   []net.Listener
 	addrs []string
 }
@@ -126,6 +128,26 @@ func (s *vfSinks) listenUDP(addr string) error {
 	return nil
 }
 
+// dropTCP closes the listener at addr and resets the connections it accepted (the backend there
+// refuses connections until listenTCP is called again).
+func (s *vfSinks) dropTCP(addr string) {
+	s.mu.Lock()
+	ln := s.tcpAt[addr]
+	conns := s.tcpConns[addr]
+	delete(s.tcpAt, addr)
+	delete(s.tcpConns, addr)
+	s.mu.Unlock()
+	if ln != nil {
+		ln.Close()
+	}
+	for _, c := range conns {
+		if tc, ok := c.(*net.TCPConn); ok {
+			tc.SetLinger(0)
+		}
+		c.Close()
+	}
+}
+
 // dropUDP closes the socket at addr (the backend there is down until listenUDP is called again).
 func (s *vfSinks) dropUDP(addr string) {
 	s.mu.Lock()
@@ -143,12 +165,22 @@ func (s *vfSinks) listenTCP(addr string) error {
 		return err
 	}
 	s.tcp = append(s.tcp, ln)
+	s.mu.Lock()
+	if s.tcpAt == nil {
+		s.tcpAt = map[string]net.Listener{}
+		s.tcpConns = map[string][]net.Conn{}
+	}
+	s.tcpAt[addr] = ln
+	s.mu.Unlock()
 	go func() {
 		for {
 			c, err := ln.Accept()
 			if err != nil {
 				return
 			}
+			s.mu.Lock()
+			s.tcpConns[addr] = append(s.tcpConns[addr], c)
+			s.mu.Unlock()
 			go func() {
 				var buf []byte
 				b := make([]byte, 65536)
